@@ -3,6 +3,7 @@
 package internal
 
 import (
+    "bytes"
     "errors"
     "fmt"
     "strconv"
@@ -369,7 +370,14 @@ func (lex *lexer) AppendError(err error)  {
 }
 
 func (lex* lexer) Pos() ast.Position {
-    return ast.Position{Line: lex.line, Column: lex.ts - lex.lineStart + 1}
+    line, lineStart := lex.line, lex.lineStart
+    if lineStart > lex.ts {
+        // A keyword token includes the whitespace that follows it. Report
+        // where the token starts, not where the scanner stopped.
+        line -= bytes.Count(lex.data[lex.ts:lineStart], []byte{'\n'})
+        lineStart = bytes.LastIndexByte(lex.data[:lex.ts], '\n') + 1
+    }
+    return ast.Position{Line: line, Column: lex.ts - lineStart + 1}
 }
 
 func (lex* lexer) RecordPosition(n ast.Node, pos ast.Position) {
